@@ -74,6 +74,22 @@ func Stop(inst *casket.Instance) {
 	}
 }
 
+// Settle makes one throw-away connection to every TCP listener of the instance and waits a moment, so
+// that each accept loop has gone through its first accept call and is parked in the network poller.
+// Instance.Restart duplicates the listening sockets through os.File.Fd, which puts the shared open file
+// description into blocking mode for a few microseconds; an accept call entered in exactly that window
+// blocks in the kernel until the next connection arrives, and with it the old server's Stop inside
+// Restart.  A harness that reloads an idle server right after starting it would sit there for ever.
+func Settle(inst *casket.Instance) {
+	for _, a := range Addrs(inst) {
+		if c, err := net.DialTimeout("tcp", Loopback(a), time.Second); err == nil {
+			NoLinger(c)
+			c.Close()
+		}
+	}
+	time.Sleep(2 * time.Millisecond)
+}
+
 // Addrs returns the TCP listen addresses of the instance.
 func Addrs(inst *casket.Instance) []string {
 	var out []string
